@@ -309,8 +309,15 @@ func segMonitor(ops, impl []string) []Violation {
 	inflight := map[uint64]string{}
 	var inflightN uint64
 	recovered := false
+	faulted := false // an append failed on an injected I/O error earlier in this case (no crash in between)
+	multiFail := false
+	var skipAbove uint64
+	skipActive := false
 	add := func(p, what, detail string, upto int) {
 		vs = append(vs, Violation{Property: p, What: what, Detail: detail, Ops: ops[:upto+1], Impl: impl[:upto+1]})
+		if faulted && p != "C11" && p != "C10" {
+			vs = append(vs, Violation{Property: "C10", What: "after an append that failed on an I/O error: " + what, Detail: detail, Ops: ops[:upto+1], Impl: impl[:upto+1]})
+		}
 	}
 	malformed := false
 	for i, op := range ops {
@@ -326,6 +333,7 @@ func segMonitor(ops, impl []string) []Violation {
 			acked = map[uint64]string{}
 			ackedLast = 0
 			malformed = false
+			faulted, multiFail, skipActive = false, false, false
 		case "setfile", "mut", "trunc":
 			malformed = true // arbitrary damage: C01/C02 make no promise
 		case "app":
@@ -333,6 +341,21 @@ func segMonitor(ops, impl []string) []Violation {
 				for _, e := range parseEntries(ws[2:]) {
 					acked[e.Index] = hx(e.Data)
 					ackedLast = e.Index
+				}
+				inflight = map[uint64]string{}
+				inflightN = 0
+			} else if ws[1] != "n" && strings.HasPrefix(out, "err") {
+				// failed on the injected fault: rolled back in memory; its bytes may or may not be on disk, so a
+				// recovery that follows directly may find the batch in full or not at all (as for a torn write)
+				if faulted && inflightN > 0 {
+					multiFail = true // several failed batches may each be found on disk: only "nothing acknowledged is lost" is checked
+				}
+				faulted = true
+				inflight = map[uint64]string{}
+				inflightN = 0
+				for _, e := range parseEntries(ws[2:]) {
+					inflight[e.Index] = hx(e.Data)
+					inflightN++
 				}
 			}
 		case "tear":
@@ -347,6 +370,9 @@ func segMonitor(ops, impl []string) []Violation {
 		case "recover":
 			if malformed {
 				continue
+			}
+			if strings.HasPrefix(out, "err no") {
+				continue // harness answer: no file was ever created in this case
 			}
 			if out != "ok" {
 				add("C03", "recovery of a crash image failed", op+" -> "+out, i)
@@ -365,6 +391,13 @@ func segMonitor(ops, impl []string) []Violation {
 			if ackedLast == 0 && inflightN > 0 {
 				want1 = base + inflightN - 1
 			}
+			if multiFail {
+				// which of the failed batches recovery found is not tracked: from here on only the acknowledged
+				// prefix is checked
+				skipAbove, skipActive = ackedLast, true
+				inflight, inflightN, recovered, multiFail = map[uint64]string{}, 0, false, false
+				continue
+			}
 			if last != want0 && last != want1 {
 				add("C02", "in-flight batch half-applied or entries fabricated", fmt.Sprintf("last=%d, admissible %d or %d", last, want0, want1), i)
 			}
@@ -382,6 +415,9 @@ func segMonitor(ops, impl []string) []Violation {
 				continue
 			}
 			idx := atoiU(ws[1])
+			if skipActive && idx > skipAbove {
+				continue
+			}
 			if want, ok := acked[idx]; ok && idx <= ackedLast {
 				if out != "ok "+want {
 					p := "C02"
@@ -552,7 +588,18 @@ func genSegCase(r *Rng, id string, tier string) *Case {
 			case 1:
 				f = "s"
 			}
-			o := g.do("app " + f + g.batch(n))
+			b := g.batch(n)
+			if s == 0 && r.Chance(1, 3) {
+				// first append into the fresh file with a batch larger than the writer's 64 KiB commit buffer (the
+				// file header is still pending in that buffer), under the fault
+				var sb strings.Builder
+				for i := 0; i < 3; i++ {
+					fmt.Fprintf(&sb, " %d:%s", g.next+uint64(i), hx(r.Bytes(22000+r.Intn(12000))))
+				}
+				b, n = sb.String(), 3
+				g.tags["fault:first-batch-over-64KiB"] = true
+			}
+			o := g.do("app " + f + b)
 			g.tags["fault:"+f[:1]] = true
 			if o == "ok" {
 				g.next += uint64(n)
@@ -580,6 +627,17 @@ func genSegCase(r *Rng, id string, tier string) *Case {
 	}
 	g.do("last")
 	g.do("file")
+	if kind == 7 && r.Chance(2, 3) {
+		// clean reopen after the faults: everything acknowledged must come back
+		if g.do("recover "+g.infoArgs()) == "ok" {
+			g.do("last")
+			for idx := g.base; idx < g.next && idx < g.base+8; idx++ {
+				g.do(fmt.Sprintf("get %d", idx))
+			}
+			g.tags["fault:reopen"] = true
+		}
+		goto done
+	}
 	if sealedIS == 0 && r.Chance(1, 3) {
 		f := "n"
 		if r.Chance(1, 4) {
@@ -607,6 +665,12 @@ func genSegCase(r *Rng, id string, tier string) *Case {
 				}
 				g.do("app n" + fmt.Sprintf(" %d:aa", atoiU(g.out[len(g.out)-6])+1))
 			}
+		} else if g.next > g.base {
+			// the live writer reads the damaged file through the offsets it holds in memory
+			for k := uint64(0); k < 6 && g.base+k < g.next; k++ {
+				g.do(fmt.Sprintf("get %d", g.base+k))
+			}
+			g.tags["malformed:live-read"] = true
 		}
 		g.do(fmt.Sprintf("dump %d %d %d", g.base, r.Intn(3), pick(r, []int{0, 0, 5})))
 	}
@@ -634,7 +698,7 @@ func genSegCase(r *Rng, id string, tier string) *Case {
 		g.do(fmt.Sprintf("dump %d %d %d", g.base, r.Intn(3), pick(r, []uint64{0, 0, g.next})))
 	}
 done:
-	c := &Case{ID: id, Props: []string{"C01", "C02", "C03", "C09", "C10", "C11", "C15"}, Ops: g.ops, Impl: g.out, Exec: execSegment, Monitor: segMonitor}
+	c := &Case{ID: id, Props: []string{"C01", "C02", "C03", "C09", "C10", "C11", "C15"}, SpecProps: []string{"C09"}, Ops: g.ops, Impl: g.out, Exec: execSegment, Monitor: segMonitor}
 	c.Tags = append(c.Tags, fmt.Sprintf("kind:%d", kind))
 	for t := range g.tags {
 		c.Tags = append(c.Tags, t)
@@ -644,9 +708,53 @@ done:
 	return c
 }
 
+// entryFrameOffsets walks the frames of a segment file (README layout: 32-byte header, frames of an 8-byte header
+// [type, 3 reserved, u32 length] and a payload padded to 8 bytes) and returns the offsets of the entry frames.
+func entryFrameOffsets(b []byte) []int {
+	var out []int
+	off := 32
+	for off+8 <= len(b) {
+		typ := b[off]
+		ln := int(uint32(b[off+4]) | uint32(b[off+5])<<8 | uint32(b[off+6])<<16 | uint32(b[off+7])<<24)
+		switch typ {
+		case 1:
+			out = append(out, off)
+			off += 8 + (ln+7)/8*8
+		case 2:
+			off += 8 + (ln+7)/8*8
+		case 3:
+			off += 8
+		default:
+			return out
+		}
+		if ln < 0 || off < 0 {
+			return out
+		}
+	}
+	return out
+}
+
+// boundary values for a frame's length field: around the uint32 wrap of header+length, the sign bit, MaxEntrySize,
+// the read buffer size, and the space left in the file
+func boundaryLen(r *Rng, fileLen, off int) uint32 {
+	rest := uint32(0)
+	if fileLen > off+8 {
+		rest = uint32(fileLen - off - 8)
+	}
+	return pick(r, []uint32{0xffffffff, 0xfffffffe, 0xfffffffc, 0xfffffff9, 0xfffffff8, 0xfffffff7, 0xfffffff0, 0x80000000, 0x7fffffff, 0x7ffffff8,
+		64<<20 + 1, 64 << 20, 64<<20 - 7, 64<<10 - 8, 64<<10 - 7, 64 << 10, rest, rest + 1, rest - 1, rest + 8, 0})
+}
+
 func mutateFile(r *Rng, data []byte) []byte {
 	b := append([]byte(nil), data...)
 	if len(b) == 0 {
+		return b
+	}
+	if offs := entryFrameOffsets(b); len(offs) > 0 && r.Chance(1, 3) {
+		// frame-aware damage: the length field of one entry frame set to a boundary value, everything else intact
+		off := pick(r, offs)
+		v := boundaryLen(r, len(b), off)
+		b[off+4], b[off+5], b[off+6], b[off+7] = byte(v), byte(v>>8), byte(v>>16), byte(v>>24)
 		return b
 	}
 	used := len(b)
